@@ -360,6 +360,7 @@ func runC03(c *run.Ctx) {
 	families = append(families, deepMismatchCases()...)
 	families = append(families, fullStackCallCases()...)
 	families = append(families, signedZeroCases()...)
+	families = append(families, nearLiteralCases()...)
 	for i, pc := range families {
 		if !c.Mine(i) {
 			continue
